@@ -364,6 +364,7 @@ def evalE (F : FloatOps) (ρ : Store) (m : Mach) : E → Res SV
        | "unsafe.Pointer", .slot h i => .ok (.slot h i) m1
        | "xr.ValueOf", .iface v => .ok (.rvVal v) m1
        | "xr.ValueOf", .val v => .ok (.rvVal v) m1
+       | "xr.Zero", .rtype k => .ok (.rvVal (Val.zero k)) m1
        | _, _ => .stuck))
   | .call2 f a b => (evalE F ρ m a).bind fun va m1 => (evalE F ρ m1 b).bind fun vb m2 =>
       (match f, va, vb with
